@@ -236,6 +236,8 @@ Price/fees can be:
 
         let year_context = match year {
             Some(y) => {
+                // Widen first: `year` is caller-supplied and `y + 1` overflows for i32::MAX.
+                let y = i64::from(y);
                 let year_end = (y + 1) % 100;
                 format!(
                     "Calculation Error for tax year {y}/{year_end:02}:\n\n\
